@@ -2,10 +2,10 @@
 package tables
 
 import (
-	"reflect"
-	"path/filepath"
 	"fmt"
 	"os"
+	"path/filepath"
+	"reflect"
 	"regexp"
 	"sort"
 	"strings"
